@@ -15,6 +15,7 @@ func Echo[T any](input <-chan T, last, count int) <-chan T {
 	output := make(chan T)
 	memory := NewRing[T](last)
 
+	VerifStage("Echo", last, []any{input}, []any{output}, count)
 	go func() {
 		defer close(output)
 
